@@ -94,3 +94,11 @@ SETS['C09'] = [h for h in FIRSTREQ if h != 'firstreq_minecraft_java'] + ['firstr
                'valve_packet_to_bytes', 'valve_default_payload', 'gs3_request_packet_to_bytes', 'mc_as_string_multibyte']
 DYNAMIC = {'C14': 'gen_defs'}
 BATCH = {"C14": 16}
+
+# harnesses that stand on no behaviour-changing stub (only the three error-construction stubs, or none): a refutation of one
+# of these is replayed natively on the real code with `cargo kani playback`
+for _n in SETS['C17'] + ['settings_new_rejects_exactly_zero_durations', 'settings_defaults_are_valid', 'retry_extreme_counts',
+                          'master_construct_payload', 'master_filter_bool_kinds', 'master_filter_text_kinds', 'valve_packet_to_bytes',
+                          'valve_default_payload', 'gs3_request_packet_to_bytes', 'mc_as_string_multibyte']:
+    if _n in HARNESSES:
+        HARNESSES[_n]['replayable'] = True
